@@ -256,7 +256,7 @@ def liveness(case, obs, log, plan):
         hx = 0 if addrs[x][0][0] == 2 else 1
         tx = find_row(rows.get(hx, {"rows": []}), addrs[x][0], addrs[x][1])
         if tx and tx["state"] != "Closed" and not tx["reset"] and not tx["timed_out"]:
-            inflight = tx["snd_nxt"] - tx["snd_una"]
+            inflight = (tx["snd_nxt"] - tx["snd_una"]) % 2 ** 32
             pending = tx["send_q"] > inflight or (tx["fin_seq"] is not None and tx["snd_nxt"] == tx["fin_seq"])
             if pending and tx["snd_wnd"] <= inflight:
                 lost = lost_window_updates(case, obs, addrs[x][0], addrs[y][0], y)
@@ -306,7 +306,7 @@ class Spec(PropSpec):
     assumptions = [
         "theorems are stated on the connection-level system `cstep` built from the same per-TCB functions as the kernel model (c06_kernel_uses_tcb_on_conn); the kernel model is what the correspondence checks against the implementation",
         "segments of an earlier incarnation of the same 4-tuple are outside the connection-level system (client ports are never reused before 16384 further connects)",
-        "sequence numbers are unbounded naturals (u32 wrap-around not modelled); packet duplication is modelled although the property excludes it",
+        "sequence numbers: the theorems are stated on unbounded naturals (side condition, not proved: every live sequence distance - in flight, window, send/receive buffer - stays below 2^31, so that the code's wrapping_sub/wrapping_add comparisons agree with them; caps and windows are at most 65535/70000); the model's wire encoding is mod 2^32 and the deterministic `wrap` family of C06 (ISN = 2^32-k on both hosts via verif hook 71a27bd, k in {1,100,1460,5000}, both roles, both directions, with and without loss) checks model/implementation correspondence and the byte-stream oracle across the wrap", "packet duplication is modelled although the property excludes it",
         "waker delivery is not modelled: the theorems say what a poll returns, the harness polls with a no-op waker",
         "liveness (c06_quiescent_complete) is deadlock-freedom over the schedules `fair_run`: nothing injected, no pure window update (the ACK a read emits) dropped before it was delivered or overtaken by an older segment; everything else may be lost, duplicated, reordered; the timed no-spurious-abort statement is partial (exact abort timing proved, environment derivation not)",
     ]
@@ -326,7 +326,7 @@ class Spec(PropSpec):
         n = 360 if ctx.tier == "quick" else 3000
         if ctx.escalate:
             n *= 2
-        cases = list(F.exhaustive_single_faults()) + F.bidi_cases()
+        cases = list(F.exhaustive_single_faults()) + F.bidi_cases() + F.wrap_cases()
         if ctx.tier != "quick":
             cases += F.exhaustive_single_faults(retx_threshold=1, retx_max=3)
         for i in range(n):
